@@ -151,7 +151,7 @@ func c14Sweep(c *Ctx) {
 	}
 	cut := 0
 	seqs, trunc := ConcPaths(fn, ConcCfg{
-		MaxIter: 3, Cut: &cut, MaxStates: 400000,
+		MaxIter: depth(3, 4), Cut: &cut, MaxStates: 2000000,
 		Inline: func(h *ssa.Function) bool {
 			// the logger's own Error method is an effect, not part of the sweep
 			return h.Pkg != nil && h.Pkg.Pkg.Path() == ZapPath && !strings.HasPrefix(h.String(), "(*go.uber.org/zap.Logger).") &&
@@ -629,7 +629,7 @@ func c14Sweep(c *Ctx) {
 				ex = append(ex, v.why+" [path: "+v.path+"]")
 			}
 		}
-		c.Check(len(ex) == 0 && feasible >= 10 && maxArgs >= 4, s.rule, name, s.slot, fn.Pos(), "replayed %d feasible paths (up to three sweeps, up to %d arguments; %d longer paths cut) against the reference model: %s %v", feasible, maxArgs, cut, s.doc, ex)
+		c.Check(len(ex) == 0 && feasible >= 10 && maxArgs >= 4, s.rule, name, s.slot, fn.Pos(), "replayed %d feasible paths (up to %d sweeps, up to %d arguments; %d longer paths cut) against the reference model: %s %v", feasible, depth(3, 4), maxArgs, cut, s.doc, ex)
 	}
 }
 
